@@ -47,6 +47,11 @@ def gen(rng, A, count):
             p["injc"] = ",".join("%d:%s" % (rng.randrange(1, 2 * N + 2), rng.choice(SPECIAL)) for _ in range(rng.choice([1, 2])))
         if rng.random() < 0.1:
             p["stopat"] = rng.randrange(1, N + 1)
+        if p["alg"] in A.d["eq"] and rng.random() < 0.5:
+            # vector-valued equality constraints (their TOTAL dimension sizes several work arrays)
+            m = rng.choice([2, 3, 5, 8])
+            if nm != "NLOPT_LD_SLSQP" or m <= n:
+                p["eq"] = "v:%d:%d:%s:%s:5" % (m, rng.choice([0, 2]), rng.choice(["-", problems.hl([1e-6] * m)]), hexd(rng.uniform(-0.3, 0.3)))
         out.append(p)
     # every algorithm with NaN (and pairs of infinities, whose difference is NaN) at several early evaluations
     for nm in names:
